@@ -710,6 +710,7 @@ class _SideGoal:
     def __init__(self, kind, cond, pc, where):
         self.kind, self.cond, self.pc, self.where = kind, cond, pc, where
         self.explicit = True
+        self.opts = {"abstract_nl": True}
 
 
 def _side_infeasible(st2, kind, where):
@@ -1530,6 +1531,10 @@ def _rebind_obj(v, st1, st, iz, last):
                   for spec in view.base]
             view = A.View(nb, [_subst_val(d, [(iz, last)]) for d in view.shape])
         return A.Arr(sid, view, v.dtype)
+    if isinstance(v, A.Masked):
+        src, mask = v.src, v.mask
+        return A.Masked(lambda idx: _subst_val(src(idx), [(iz, last)]), _subst_val(v.n, [(iz, last)]),
+                        lambda t: _subst_val(mask(t), [(iz, last)]), tuple(_subst_val(d, [(iz, last)]) for d in v.rest), v.dtype)
     if isinstance(v, tuple):
         return tuple(_rebind_obj(x, st1, st, iz, last) for x in v)
     if sv.is_scalar(norm(v)):
